@@ -9,7 +9,19 @@ import numpy as np
 
 
 def length_scale(eq):
-    return max(float(eq.Rmax - eq.Rmin), float(eq.Zmax - eq.Zmin)) if hasattr(eq, "Rmax") else 1.0
+    if hasattr(eq, "Rmax"):
+        L = max(float(eq.Rmax - eq.Rmin), float(eq.Zmax - eq.Zmin))
+        if np.isfinite(L) and L > 0:
+            return L
+    # an analytic equilibrium has no data box: use the extent of its wall
+    w = getattr(eq, "wall", None)
+    if w:
+        Rw = np.array([p.R for p in w])
+        Zw = np.array([p.Z for p in w])
+        L = max(float(Rw.max() - Rw.min()), float(Zw.max() - Zw.min()))
+        if np.isfinite(L) and L > 0:
+            return L
+    return 1.0
 
 
 def fd_grad(psi, R, Z, h=1e-4):
